@@ -56,6 +56,14 @@ TEMPLATES = {
     "el_eq": (lambda i, j: [_sb(".", "=", "2")], lambda i, j: [S(".", "=", "2")], False, False, "[.=2]"),
     "el_neq": (lambda i, j: [_sb(".", "=", "2", True)], lambda i, j: [S(".", "=", "2", True)], False, False, "[.!=2]"),
     "el_eqi": (lambda i, j: [_sb(".", "=", str(i))], lambda i, j: [S(".", "=", str(i))], True, False, "[.=i]"),
+    "el_le_f": (lambda i, j: [_sb(".", "<=", "2.5")], lambda i, j: [S(".", "<=", "2.5")], False, False, "[.<=2.5]"),
+    "el_ge_f": (lambda i, j: [_sb(".", ">=", "1.5")], lambda i, j: [S(".", ">=", "1.5")], False, False, "[.>=1.5]"),
+    "el_nlt_f": (lambda i, j: [_sb(".", "<", "1.5", True)], lambda i, j: [S(".", "<", "1.5", True)], False, False, "[.!<1.5]"),
+    "el_gt_f": (lambda i, j: [_sb(".", ">", "-0.5")], lambda i, j: [S(".", ">", "-0.5")], False, False, "[.>-0.5]"),
+    "el_eq_f": (lambda i, j: [_sb(".", "=", "2.5")], lambda i, j: [S(".", "=", "2.5")], False, False, "[.=2.5]"),
+    "el_le_2": (lambda i, j: [_sb(".", "<=", "2")], lambda i, j: [S(".", "<=", "2")], False, False, "[.<=2] (integer term, float values)"),
+    "at_le_f": (lambda i, j: [_sb("p", "<=", "1.5")], lambda i, j: [S("p", "<=", "1.5")], False, False, "[p<=1.5]"),
+    "at_nge_f": (lambda i, j: [_sb("p", ">=", "2.5", True)], lambda i, j: [S("p", ">=", "2.5", True)], False, False, "[p!>=2.5]"),
     "el_sw": (lambda i, j: [_sb(".", "^", "-")], lambda i, j: [S(".", "^", "-")], False, False, "[.^-]"),
     "el_ew": (lambda i, j: [_sb(".", "$", "1")], lambda i, j: [S(".", "$", "1")], False, False, "[.$1]"),
     "el_has": (lambda i, j: [_sb(".", "%", "1")], lambda i, j: [S(".", "%", "1")], False, False, "[.%1]"),
@@ -202,6 +210,8 @@ AOH_T = ["p", "idx_p", "slice_p", "at_gt", "at_ngt", "at_eq", "at_neq", "at_le",
 HASHES = ["M3", "M0", "MM", "MNULL", "MINT", "MSTRNUM", "HOH", "SCAL"]
 HASH_T = ["p", "nope", "k1", "hslice", "hslice2", "key_sw", "key_neq", "key_gt", "at_gt", "at_ngt", "at_eq", "star",
           "star_p", "star_at", "deep", "deep_p", "self", "at_desc"]
+FLOATS = [("LFLT", t) for t in ("el_le_f", "el_ge_f", "el_nlt_f", "el_gt_f", "el_eq_f", "el_le_2", "el_gt", "el_le", "idx", "deep")] + \
+         [("AOHF", t) for t in ("at_le_f", "at_nge_f", "at_gt", "at_le", "p", "p_el_gt")]
 OTHER = [("LL", "idx_idx"), ("LL", "star_idx"), ("LL", "star"), ("LL", "deep"), ("LL", "idx"), ("LMIX", "idx"),
          ("LMIX", "p"), ("LMIX", "deep"), ("LMIX", "star"), ("LHASH", "p"), ("LHASH", "star_p"), ("LSTR", "idx"),
          ("LSTR", "deep"), ("SET", "p"), ("SET", "self"), ("SETI", "k1"), ("ROOTSCALAR", "self"), ("ROOTSCALAR", "el_gt"),
@@ -211,7 +221,7 @@ QUICK = [("L3", "idx"), ("ML3", "barekey"), ("ML4", "slice"), ("L3", "el_gt"), (
          ("AOHD", "at_desc"), ("AOH3", "at_gt_n"), ("AOH3", "idx_p"), ("AOHX", "star_p"), ("AOHD", "deep_p"),
          ("M3", "key_sw"), ("M3", "hslice"), ("MM", "at_gt"), ("MINT", "k1"), ("HOH", "star_at"), ("MM", "deep"),
          ("LL", "idx_idx"), ("LMIX", "p"), ("M3", "star"), ("SCAL", "el_gt"), ("AOHX", "p_el_gt"), ("MSTRNUM", "k1"),
-         ("AOH3", "slice_p")]
+         ("AOH3", "slice_p"), ("LFLT", "el_le_f"), ("LFLT", "el_ge_f"), ("AOHF", "at_le_f"), ("AOHF", "at_nge_f")]
 
 
 def _mk(shape, template, tier):
@@ -255,7 +265,7 @@ def pairs(tier):
         out += [(s, t) for t in AOH_T]
     for s in HASHES:
         out += [(s, t) for t in HASH_T]
-    out += OTHER
+    out += OTHER + FLOATS
     seen, uniq = set(), []
     for p in out + QUICK:
         if p not in seen:
